@@ -853,7 +853,7 @@ func checkC15(c *Ctx) {
 		}
 	}
 	// optional <-> pointer: structs.field emits "*" exactly under RepetitionType == OPTIONAL
-	fld := u.Func(genBase+"structs", "field")
+	fld := roleFunc(u, genBase+"structs", "structField")
 	if fld == nil {
 		r.failf("structs.field not found")
 		return
